@@ -55,6 +55,10 @@ class ReduceToBason(_Stepper):
         self.decreasing, self.tol = decreasing, tol
         self.patience, self.patience_count = patience, 0
 
+    def reset(self):
+        super().reset()
+        self.patience_count = 0
+
     def step(self, loss):
         r'''
         Performs a stepper step.
